@@ -27,6 +27,9 @@ type Clause struct {
 	File  string
 	Line  int
 	idx   int
+	// call-site clauses: `call <Name>#<k> assert|label|invariant ...`
+	CallName string
+	CallOrd  int
 }
 
 func (c *Clause) label() string {
@@ -62,6 +65,7 @@ type Contract struct {
 	Requires []*Clause
 	Ensures  []*Clause
 	Loops    []*Clause
+	Calls    []*Clause // call-site clauses (assert / label / invariant), keyed by callee name and ordinal
 	Trusted  bool
 	Touches  []*Clause // objects whose fields (and nothing else of their struct types) the function may change
 	WritesTo []*Clause // writers/readers/hashes whose ghost state (and no other object's) the function may change
@@ -88,7 +92,8 @@ type ContractSet struct {
 }
 
 var blockRe = regexp.MustCompile(`(?s)/\*@(.*?)@\*/`)
-var clauseHead = regexp.MustCompile(`^(requires|ensures|tags|safety|loop|modifies|touches|writesto|trusted|noinline|inline)\b`)
+var clauseHead = regexp.MustCompile(`^(requires|ensures|tags|safety|loop|call|modifies|touches|writesto|trusted|noinline|inline)\b`)
+var callSiteRe = regexp.MustCompile(`^([A-Za-z_][A-Za-z0-9_.]*)#([0-9]+)\s+(assert|label|invariant)\b\s*(.*)$`)
 
 // rewriteImp turns `a ==> b` (lowest precedence, right associative) into imp(a, b), recursively inside brackets.
 func rewriteImp(s string) string {
@@ -330,8 +335,25 @@ func (cs *ContractSet) parseBlock(file string, line0 int, body string) {
 		case "modifies":
 			c.HasMods = true
 			c.Modifies = append(c.Modifies, strings.Fields(strings.ReplaceAll(rest, ",", " "))...)
-		case "requires", "ensures", "loop":
+		case "requires", "ensures", "loop", "call":
 			cl := &Clause{Kind: kw, File: file, Line: it.line}
+			if kw == "call" {
+				m := callSiteRe.FindStringSubmatch(rest)
+				if m == nil {
+					cs.errf(file, it.line, "malformed call clause (call Name#k assert|label|invariant ...): %s", rest)
+					continue
+				}
+				cl.CallName = m[1]
+				cl.CallOrd, _ = strconv.Atoi(m[2])
+				cl.Kind = "call-" + m[3]
+				rest = strings.TrimSpace(m[4])
+				if m[3] == "label" {
+					cl.Label = rest
+					cl.Src = rest
+					c.Calls = append(c.Calls, cl)
+					continue
+				}
+			}
 			if kw == "loop" {
 				fs := strings.Fields(rest)
 				if len(fs) < 3 {
@@ -373,6 +395,8 @@ func (cs *ContractSet) parseBlock(file string, line0 int, body string) {
 				c.Requires = append(c.Requires, cl)
 			case "ensures":
 				c.Ensures = append(c.Ensures, cl)
+			case "call":
+				c.Calls = append(c.Calls, cl)
 			default:
 				c.Loops = append(c.Loops, cl)
 			}
@@ -457,6 +481,7 @@ type Env struct {
 	depth int
 	water string // allocation watermark fresh() is relative to ("pre" at function entry)
 	headEnv *Env // state at the loop head (for athead)
+	labels  map[string]*Env // states captured by `call ... label L` clauses (for at(L, e))
 }
 
 func (env *Env) with(name string, tv TV) *Env {
@@ -844,6 +869,40 @@ func (e *Engine) evalCall(env *Env, n *ast.CallExpr) (Val, types.Type) {
 			return Sc{"0"}, tInt
 		}
 		return e.eval(env.headEnv, n.Args[0])
+	case "at": // at(L, e): value of e in the state captured by the call-site clause `label L`
+		if !need(2) {
+			return Sc{"0"}, tInt
+		}
+		id, ok := n.Args[0].(*ast.Ident)
+		if !ok {
+			e.specErr("at: first argument must be a label")
+			return Sc{"0"}, tInt
+		}
+		le := env.labels[id.Name]
+		if le == nil {
+			e.specErr("at: label %s was not reached before this point", id.Name)
+			return Sc{"0"}, tInt
+		}
+		return e.eval(le, n.Args[1])
+	case "slid": // slid(s): identity of the byte range a slice designates (backing array, offset, length)
+		if !need(1) {
+			return Sc{"0"}, tInt
+		}
+		v, _ := arg(0)
+		sv, ok := v.(SliceV)
+		if !ok {
+			e.specErr("slid: argument must be a slice")
+			return Sc{"0"}, tInt
+		}
+		e.useCRC = true
+		return Sc{fmt.Sprintf("(slid %s %s %s)", sv.B, sv.O, sv.L)}, tInt
+	case "crcsum": // crcsum(h, n): Sum32 of hash object h after absorbing n bytes since its creation or last reset
+		if !need(2) {
+			return Sc{"0"}, tInt
+		}
+		e.useCRC = true
+		h, cnt := argS(0), argS(1)
+		return Sc{fmt.Sprintf("(ite (= %s 0) 0 (crcsum %s %s))", cnt, h, cnt)}, types.Typ[types.Uint32]
 	case "len", "cap":
 		if !need(1) {
 			return Sc{"0"}, tInt
@@ -1158,11 +1217,11 @@ var basicByName = map[string]types.Type{
 func ghostRole(role string) []string {
 	switch role {
 	case "hash":
-		return []string{"crc_lo", "crc_hi", "crc_src"}
+		return []string{"crc_lo", "crc_hi", "crc_src", "crc_last"}
 	case "reader":
-		return []string{"rd_pos", "rd_left"}
+		return []string{"rd_pos", "rd_left", "rd_eof"}
 	}
-	return []string{"wr_failed", "wr_offered", "wr_calls"}
+	return []string{"wr_failed", "wr_offered", "wr_calls", "wr_last"}
 }
 
 // ghostSorts lists the ghost heap components (element sort; all indexed by object reference).
@@ -1172,16 +1231,19 @@ var ghostSorts = map[string]string{
 	"wr_calls":   "Int",  // number of Write calls
 	"rd_pos":     "Int",  // bytes consumed from this source so far
 	"rd_left":    "Int",  // bytes the source can still deliver (>= 0)
+	"rd_eof":     "Bool", // the source has reported end-of-file to a read
 	"crc_lo":     "Int",  // hash covers stream [crc_lo, crc_hi) of crc_src
 	"crc_hi":     "Int",
 	"crc_src":    "Int",
+	"crc_last":   "Int", // identity (slid) of the byte range most recently absorbed by this hash
+	"wr_last":    "Int", // identity (slid) of the byte range most recently offered to this sink
 	"sb_len":     "Int", // length of a strings.Builder's contents
 }
 
 // specEnv builds the environment for contract clauses of the frame's function: parameters, captured variables,
 // and (at a loop head) the source-level locals.
 func (f *frame) specEnv(h *Heap, at *ssa.BasicBlock, phis map[*ssa.Phi]Val) *Env {
-	env := &Env{vars: map[string]TV{}, cells: map[string]bool{}, heap: h, old: f.entry}
+	env := &Env{vars: map[string]TV{}, cells: map[string]bool{}, heap: h, old: f.entry, labels: f.labels}
 	if f.fn.Pkg != nil {
 		env.pkg = f.fn.Pkg.Pkg
 	} else if o := f.fn.Origin(); o != nil && o.Pkg != nil {
